@@ -15,6 +15,9 @@ EXTENDS StoreBase
 DNode(k, ns, n, d, p, q) == [k |-> k, ns |-> ns, n |-> n, a |-> <<>>, d |-> d, p |-> p, q |-> q, kids |-> <<>>, pn |-> 0, par |-> 0]
 DInit == [nd |-> <<DNode("doc", "", <<>>, <<>>, None, None)>>, exc |-> "", log |-> <<>>]
 
+\* base.TreeBuilder.reset() -> dom.TreeBuilder.documentClass(): self.dom = a NEW minidom Document on every reset, whatever the old
+\* one holds (also when it only holds the comments / doctype of a parse that was abandoned before <html>)
+DReset(s) == DInit
 DFail(s, name) == [s EXCEPT !.exc = name]
 DPar(s, n) == s.nd[n].par
 DHasContent(s, n) == s.nd[n].kids # <<>>                                     \* element.hasChildNodes()
